@@ -1211,8 +1211,12 @@ impl ElementRaw {
         value: CharacterData,
         file_version: AutosarVersion,
     ) -> Result<(), AutosarDataError> {
-        // find the attribute specification in the item type
-        if let Some(AttributeSpec { spec, .. }) = self.elemtype.find_attribute_spec(attrname) {
+        // find the attribute specification in the item type; the attribute must also exist in the version of the file
+        if let Some(AttributeSpec { spec, .. }) = self
+            .elemtype
+            .find_attribute_spec(attrname)
+            .filter(|attr_spec| file_version.compatible(attr_spec.version))
+        {
             // the existing attribute gets updated
             if CharacterData::check_value(&value, spec, file_version) {
                 // find the attribute the element's attribute list
@@ -1242,7 +1246,10 @@ impl ElementRaw {
         if let Some(AttributeSpec {
             spec: character_data_spec,
             ..
-        }) = self.elemtype.find_attribute_spec(attrname)
+        }) = self
+            .elemtype
+            .find_attribute_spec(attrname)
+            .filter(|attr_spec| version.compatible(attr_spec.version))
         {
             if let Some(value) = CharacterData::parse(stringvalue, character_data_spec, version) {
                 if let Some(attr) = self.attributes.iter_mut().find(|attr| attr.attrname == attrname) {
